@@ -715,6 +715,9 @@ func (w *Walker) val(fr *frame, v ssa.Value) *Term {
 				cell.Val = &Term{Op: "slicev", Args: els, Typ: at}
 				c.Val = &Term{Op: "sref", Cell: cell, Typ: c.Val.Typ, Args: []*Term{mkInt(0, types.Typ[types.Int]), mkInt(int64(len(img)), types.Typ[types.Int])}}
 			}
+			if fv := w.foldGlobal(x); fv != nil {
+				c.Val = fv
+			}
 		}
 		return &Term{Op: "ptr", Cell: c, Typ: x.Type()}
 	case *ssa.Function:
